@@ -1,0 +1,9 @@
+//go:build !verif
+
+package reader
+
+import "github.com/milvus-io/milvus/pkg/mq/msgstream"
+
+// verifYield marks a scheduling point of the pack pipeline (outside any held lock).
+// It does nothing unless the package is built with the "verif" tag.
+func verifYield(point string, pack *msgstream.MsgPack) {}
